@@ -451,5 +451,93 @@ fn main() {
             }
         },
     );
+    // short request lists through the bulk entry point: one, two or three q values in any order. The laws
+    // need no oracle: q = 0 is the minimum, q = 1 the maximum, entries are ordered like their q, lie
+    // within [min, max], and the strategies bracket each other for the same request.
+    let mut scases: Vec<(usize, u8, Vec<f64>)> = Vec::new();
+    for n in 2..=9usize {
+        let pool: Vec<f64> = vec![0.0, 1.0, 0.5, 0.25, 0.75, 1.0 / (n - 1) as f64, (n - 2) as f64 / (n - 1) as f64];
+        for fam in 0..2u8 {
+            for a in 0..pool.len() {
+                scases.push((n, fam, vec![pool[a]]));
+                for b in 0..pool.len() {
+                    scases.push((n, fam, vec![pool[a], pool[b]]));
+                    for c in 0..pool.len() {
+                        if (a + b + c + n) % 2 == 0 {
+                            scases.push((n, fam, vec![pool[a], pool[b], pool[c]]));
+                        }
+                    }
+                }
+            }
+        }
+    }
+    rep.run_sub(
+        "short-bulk-requests",
+        "1-D lanes of length 2..=9 (distinct values in a scrambled order; values with ties) x every request list of one or two q values and half of the lists of three (in every order, with repeats) from {0, 1, 1/2, 1/4, 3/4, 1/(n-1), (n-2)/(n-1)} through quantiles_mut x 5 strategies; ALL pivot sequences for n <= 4, policies first / middle / last above: q=0 gives the minimum, q=1 the maximum, entries lie in [min, max] and are ordered like their q, Lower <= {Nearest, Midpoint, Linear} <= Higher entry by entry",
+        scases.into_iter(),
+        |(n, fam, qs), lx| {
+            let n = *n;
+            lx.nontrivial(true);
+            let data: Vec<i64> = (0..n).map(|k| if *fam == 0 { ((k * 5 + 3) % n) as i64 * 10 - 20 } else { ((k * 5 + 3) % n / 2) as i64 * 10 - 20 }).collect();
+            let (mn, mx) = (*data.iter().min().unwrap(), *data.iter().max().unwrap());
+            let modes: Vec<PivotMode> = if n <= 4 { vec![PivotMode::All] } else { vec![PivotMode::Bounded { policy: Policy::First, bound: 0 }, PivotMode::Bounded { policy: Policy::Middle, bound: 0 }, PivotMode::Bounded { policy: Policy::Last, bound: 0 }] };
+            let qa = Array1::from(qs.iter().map(|&q| n64(q)).collect::<Vec<N64>>());
+            for mode in &modes {
+                let mut per_strategy: Vec<Option<Vec<i64>>> = Vec::new();
+                for &strat in &Strat::ALL {
+                    let mut answer: Option<Vec<i64>> = None;
+                    lx.explore(mode, |lx| {
+                        let mut a = Array1::from(data.clone());
+                        match guarded(|| nsmc::with_strategy!(strat, i, a.quantiles_mut(&qa, i))) {
+                            Ok(Ok(res)) => {
+                                let v: Vec<i64> = res.to_vec();
+                                if !lx.check(v.len() == qs.len(), "C19/result-shape", || format!("quantiles_mut({:?}, {:?}) on {:?} has {} entries", qs, strat, data, v.len())) {
+                                    return 0;
+                                }
+                                for (j, &q) in qs.iter().enumerate() {
+                                    lx.check(mn <= v[j] && v[j] <= mx, "C19/outside-min-max", || format!("quantiles_mut({:?}, {:?}) on {:?}: entry {} = {} outside [{}, {}]", qs, strat, data, j, v[j], mn, mx));
+                                    if q == 0.0 {
+                                        lx.check(v[j] == mn, "C19/q0-not-min", || format!("quantiles_mut({:?}, {:?}) on {:?}: entry {} (q=0) = {}, minimum {}", qs, strat, data, j, v[j], mn));
+                                    }
+                                    if q == 1.0 {
+                                        lx.check(v[j] == mx, "C19/q1-not-max", || format!("quantiles_mut({:?}, {:?}) on {:?}: entry {} (q=1) = {}, maximum {}", qs, strat, data, j, v[j], mx));
+                                    }
+                                    for (k, &q2) in qs.iter().enumerate() {
+                                        if q < q2 {
+                                            lx.check(v[j] <= v[k], "C19/not-monotone-in-q", || format!("quantiles_mut({:?}, {:?}) on {:?}: entry for q={:?} is {} > entry for q={:?} = {}", qs, strat, data, q, v[j], q2, v[k]));
+                                        }
+                                        if q == q2 {
+                                            lx.check(v[j] == v[k], "C19/repeated-q-differs", || format!("quantiles_mut({:?}, {:?}) on {:?}: entries {} and {} for the same q differ: {} / {}", qs, strat, data, j, k, v[j], v[k]));
+                                        }
+                                    }
+                                }
+                                if let Some(prev) = &answer {
+                                    lx.check(*prev == v, "C19/pivot-dependent-result", || format!("quantiles_mut({:?}, {:?}) on {:?} gives {:?} or {:?} depending on the pivots", qs, strat, data, prev, v));
+                                }
+                                answer = Some(v.clone());
+                                hash_of(&v)
+                            }
+                            other => {
+                                lx.fail("C19/panic", || format!("quantiles_mut({:?}, {:?}) on {:?} failed: {:?}", qs, strat, data, other.map(|r| r.map(|_| ()))));
+                                0
+                            }
+                        }
+                    });
+                    per_strategy.push(answer);
+                }
+                // Strat::ALL order: find Lower and Higher by name
+                let idx = |s: Strat| Strat::ALL.iter().position(|x| *x == s).unwrap();
+                if let (Some(lo), Some(hi)) = (&per_strategy[idx(Strat::Lower)], &per_strategy[idx(Strat::Higher)]) {
+                    for (si, ans) in per_strategy.iter().enumerate() {
+                        if let Some(v) = ans {
+                            for j in 0..qs.len().min(v.len()).min(lo.len()).min(hi.len()) {
+                                lx.check(lo[j] <= v[j] && v[j] <= hi[j], "C19/strategy-order", || format!("quantiles_mut({:?}) on {:?}: {:?} gives {} at entry {}, Lower {} and Higher {}", qs, data, Strat::ALL[si], v[j], j, lo[j], hi[j]));
+                            }
+                        }
+                    }
+                }
+            }
+        },
+    );
     rep.finish();
 }
